@@ -135,7 +135,7 @@ impl Gen {
             v.push(rng.below(3) as i64);
             return v;
         }
-        const ALL: [i64; 31] = [1, 2, 3, 4, 5, 6, 7, 8, 9, 10, 11, 12, 13, 14, 15, 16, 17, 18, 20, 21, 22, 23, 24, 25, 30, 31, 32, 33, 34, 35, 0];
+        const ALL: [i64; 32] = [1, 2, 3, 4, 5, 6, 7, 8, 9, 10, 11, 12, 13, 14, 15, 16, 17, 18, 20, 21, 22, 23, 24, 25, 26, 30, 31, 32, 33, 34, 35, 0];
         // 0 = E, 1 = O, 2 = V, 3 = done
         let mut st = 0u8;
         let mut occ = present;
@@ -153,7 +153,7 @@ impl Gen {
                     st = 1;
                     occ = true;
                 }
-                2 | 3 | 4 => st = 3,
+                2 | 3 | 4 | 26 => st = 3,
                 8 => occ = false,
                 9 => st = if occ { 1 } else { 2 },
                 13 | 15 | 16 | 31 | 34 => st = 3,
@@ -412,8 +412,8 @@ impl Gen {
         let sv = &view.slots[s];
         let val = if rng.below(30) == 0 { crate::elem::NAN_VAL as i64 } else { rng.below(1 << 20) as i64 };
         match kind {
-            Kd::Insert | Kd::TryInsert => Op::new(kind).s(s).a(self.key(rng, sv, 35) as i64).b(val),
-            Kd::Get | Kd::GetMut | Kd::GetView | Kd::ContainsKey | Kd::GetKeyValue | Kd::GetKeyValueMut => Op::new(kind).s(s).a(self.key(rng, sv, 65) as i64).b(val),
+            Kd::Insert | Kd::TryInsert => Op::new(kind).s(s).a(self.key(rng, sv, 35) as i64).b(val).c((rng.below(8) == 0) as i64),
+            Kd::Get | Kd::GetMut | Kd::GetView | Kd::ContainsKey | Kd::GetKeyValue | Kd::GetKeyValueMut => Op::new(kind).s(s).a(self.key(rng, sv, 65) as i64).b(val).c((rng.below(4) == 0) as i64),
             Kd::Remove | Kd::RemoveEntry | Kd::RemoveView | Kd::Take => Op::new(kind).s(s).a(self.key(rng, sv, 75) as i64),
             Kd::Replace | Kd::GetOrInsert => Op::new(kind).s(s).a(self.key(rng, sv, 50) as i64),
             Kd::GetOrInsertWith => Op::new(kind).s(s).a(self.key(rng, sv, 50) as i64).b(if rng.below(6) == 0 { 1 } else { 0 }),
@@ -458,7 +458,8 @@ impl Gen {
             }
             Kd::Drain => {
                 let a = if rng.below(5) < 2 { -1 } else { rng.below(sv.len as u64 + 2) as i64 };
-                Op::new(kind).s(s).a(a).b((self.allow_forget && rng.below(4) == 0) as i64)
+                let b = if self.allow_forget && rng.below(4) == 0 { 1 } else if rng.below(4) == 0 { 2 } else { 0 };
+                Op::new(kind).s(s).a(a).b(b)
             }
             Kd::Iter | Kd::SetIter => {
                 let which = if rng.below(12) == 0 { rng.range(7, 11) } else { rng.range(0, 6) };
@@ -498,7 +499,7 @@ impl Gen {
             // ---- table operations
             Kd::TFind | Kd::TFindMut | Kd::TIterHash | Kd::TIterHashMut => Op::new(kind).s(s).a(self.key(rng, sv, 65) as i64).b(val).c(rng.below(8) as i64),
             Kd::TFindEntry => Op::new(kind).s(s).a(self.key(rng, sv, 75) as i64).b(rng.below(4) as i64).c(val),
-            Kd::TEntry => Op::new(kind).s(s).a(self.key(rng, sv, 50) as i64).b(val).c(rng.below(6) as i64),
+            Kd::TEntry => Op::new(kind).s(s).a(self.key(rng, sv, 50) as i64).b(val).c(rng.below(7) as i64),
             Kd::TInsertUnique => {
                 // duplicates of already stored ids are allowed in a HashTable
                 Op::new(kind).s(s).a(self.key(rng, sv, 25) as i64).b(val)
@@ -506,7 +507,7 @@ impl Gen {
             Kd::TRemoveReinsert => Op::new(kind).s(s).a(self.key(rng, sv, 80) as i64).b(val).c(rng.below(3) as i64),
             Kd::Par => {
                 let nd = *rng.pick(&[4usize, 12, 40, 120]);
-                Op::new(kind).s(s).t((s + 1) % self.n_slots).a(rng.below(48) as i64).b(rng.below(sv.len as u64 + 2) as i64).c(rng.below(1024) as i64).v((0..nd).map(|_| rng.below(1 << 16) as i64).collect())
+                Op::new(kind).s(s).t((s + 1) % self.n_slots).a(if rng.below(9) == 0 { 1000 + rng.below(2) as i64 } else { rng.below(48) as i64 }).b(rng.below(sv.len as u64 + 2) as i64).c(rng.below(1024) as i64).v((0..nd).map(|_| rng.below(1 << 16) as i64).collect())
             }
             Kd::SerdeRoundTrip => Op::new(kind).s(s).a(rng.below(4) as i64).b(rng.below(400) as i64).c(rng.below(7) as i64),
             Kd::SerdeStream => {
